@@ -10,6 +10,7 @@
 -/
 import PurlModel.Lemmas.ParseWF
 import PurlModel.Lemmas.QualsStep
+import PurlModel.Lemmas.BinSearch
 import PurlModel.Lemmas.RustUnicode
 namespace Purl.C06
 open Purl Purl.Generated
@@ -111,6 +112,24 @@ theorem custom_keys : isValidKey (knownKey 7) = true ∧ isValidKey (knownKey 8)
     isValidKey (knownKey 9) = false := by decide
 
 theorem checksum_key_valid : isValidKey checksumKey = true := checksumKey_valid
+
+/-- `Qualifiers::search` calls std's `binary_search_by`, whose loop reads the slice with
+`get_unchecked` (an out-of-range index there is undefined behaviour, not a panic) and whose comparator is
+`partial_cmp(..).unwrap()`.  On every collection satisfying the invariant (C11: every reachable one) the
+algorithm as std implements it (PurlModel/BinSearch.lean) reads only in range and the `unwrap` never fires. -/
+theorem binary_search_in_bounds (q : Quals) (hq : QInv q) (mk : MixedKey) :
+    (q.searchBin U mk).isPanic = false := by
+  rw [searchBin_eq_search U hq.1 mk]
+  unfold Quals.search
+  rw [searchFrom_eq U mk.asRef _ rfl]
+  rfl
+
+/-- … and for ANY total comparison on ANY slice (sorted or not) the loop of std's algorithm stays in range:
+the window `[base, base + size)` never leaves the slice -/
+theorem binary_search_loop_in_range {α : Type} (c : α → Ordering) (l : List α) :
+    ∀ size base, 1 ≤ size → base + size ≤ l.length →
+      ∃ b, bsLoop (fun a => some (c a)) l size base = .ok b ∧ b < l.length :=
+  bsLoop_in_range c l
 
 /-- instantiation at the linked tables -/
 theorem parse_never_panics_rust (s : Str) : (parseS rustUnicode s).isPanic = false :=
